@@ -75,7 +75,8 @@ pub fn strftime(ts: time::OffsetDateTime, fmt: &str) -> Result<String, DateForma
             () => {{
                 let next = fmt_iter.next();
                 if let Some(nxt) = next {
-                    cursor = nxt.0;
+                    // last byte of the character just consumed (it may be wider than one byte)
+                    cursor = nxt.0 + nxt.1.len_utf8() - 1;
                 }
                 next
             }};
